@@ -23,6 +23,42 @@ func init() {
 	})
 }
 
+// c29Snapshot: v is result i of a call, from fn, of a method of the same
+// receiver in the same package whose every return gives, in position i, a load
+// of a receiver field; returns that load (inside the helper), else nil.
+func c29Snapshot(fn *ssa.Function, v ssa.Value) *ssa.UnOp {
+	if v == nil {
+		return nil
+	}
+	ex, ok := engine.Unwrap(v).(*ssa.Extract)
+	if !ok {
+		return nil
+	}
+	call, isC := ex.Tuple.(*ssa.Call)
+	if !isC {
+		return nil
+	}
+	h := call.Common().StaticCallee()
+	if h == nil || h.Pkg != fn.Pkg || len(h.Blocks) == 0 || len(call.Common().Args) == 0 || engine.Unwrap(call.Common().Args[0]) != ssa.Value(fn.Params[0]) {
+		return nil
+	}
+	var out *ssa.UnOp
+	for _, r := range engine.Returns(h) {
+		if ex.Index >= len(r.Results) {
+			return nil
+		}
+		ld, isL := engine.Unwrap(r.Results[ex.Index]).(*ssa.UnOp)
+		if !isL || ld.Op != token.MUL {
+			return nil
+		}
+		if out != nil && out != ld {
+			return nil
+		}
+		out = ld
+	}
+	return out
+}
+
 // c29R6: "once the client is closed, pending and new invocations return" rests
 // on R5's dead signal, which only a connection that is *run* ever sends. The
 // reconnect loop installs the replacement as c.conn before it sleeps, and
@@ -145,6 +181,9 @@ func c29(c *engine.Ctx) {
 				continue
 			}
 			d := engine.Describe(sc.Chan)
+			if ld := c29Snapshot(ic, sc.Chan); ld != nil {
+				d = engine.Describe(ld) // read inside a snapshot helper such as primaryConn()
+			}
 			switch {
 			case isDoneOf(sc.Chan, "p:ctx"):
 				has["caller"] = sc.Body
@@ -176,12 +215,23 @@ func c29(c *engine.Ctx) {
 			c.Check(ok, "C29.R2", "invokeConn/wait/"+k+"-case-returns-error", wait.Pos(), "when the %s context ends the invocation must return a non-nil error and never wait or retry again", k)
 		}
 		// snapshot under connMux: conn used by the attempt and the channel waited on are loaded in one critical section
-		ls := engine.Locksets(ic)
+		snapFn := ic
 		connLoad, _ := engine.Unwrap(inv.Common().Value).(*ssa.UnOp)
 		chL, _ := engine.Unwrap(chLoad).(*ssa.UnOp)
+		// both may come out of one call of a snapshot helper: then the two
+		// reads and the lock are looked for in the helper, and they are one
+		// snapshot only if they are results of the same call
+		if a, b := c29Snapshot(ic, inv.Common().Value), c29Snapshot(ic, chLoad); a != nil && b != nil {
+			ea, _ := engine.Unwrap(inv.Common().Value).(*ssa.Extract)
+			eb, _ := engine.Unwrap(chLoad).(*ssa.Extract)
+			if ea != nil && eb != nil && ea.Tuple == eb.Tuple {
+				connLoad, chL, snapFn = a, b, a.Parent()
+			}
+		}
+		ls := engine.Locksets(snapFn)
 		okSnap := connLoad != nil && chL != nil && ls[connLoad]["p:c.connMux"] && ls[chL]["p:c.connMux"] && engine.Describe(connLoad.X) == "p:c.conn"
 		if okSnap {
-			for _, u := range engine.CallsTo(ic, false, "(*sync.Mutex).Unlock") {
+			for _, u := range engine.CallsTo(snapFn, false, "(*sync.Mutex).Unlock") {
 				if engine.Describe(u.Common().Args[0]) != "p:c.connMux" {
 					continue
 				}
